@@ -293,6 +293,7 @@ def run_thread_check(prop, tier, parts, budget_s, design_ref, assumptions, real_
         if san:
             desc["kind"] = san.get("kind", "")
             desc["first_repo_function"] = san.get("first_repo_function") or ""
+            desc["alloc_repo_function"] = san.get("alloc_repo_function") or ""
         k = match_known(prop, desc)
         if k:
             print("KNOWN-FINDING: property=%s %s" % (prop, k.get("what", cls)))
